@@ -140,7 +140,7 @@ func genCases(seed int64, tier string) []core.Case {
 	sampled, hist := 150, 150
 	if tier == "thorough" {
 		exhaust = 3
-		sampled, hist = 1500, 2500
+		sampled, hist = 6000, 10000
 	}
 	for n := 1; n <= exhaust; n++ {
 		total := 1
